@@ -10,7 +10,7 @@ import ast
 import itertools
 
 from ..core import Rule, AnalysisError, norm
-from .. import pyfront, dtable, pyutil, cfold, pybool
+from .. import pyfront, dtable, pyutil, cfold, pybool, rx
 from . import c02
 
 LD = "python/digital_rf/list_drf.py"
@@ -1149,8 +1149,80 @@ def r10_window_bounds_exact(repo=None):
     return r
 
 
+def r11_sort_keys_and_vanished_first_subdir(repo=None):
+    """Two facts found by the second defect hunt.  (a) 'ordered': the sort key the command line's --sortall uses is defined for every
+    name a listing can yield - the union of sortkey_drf's default regular expressions contains the file grammar *and* the
+    properties grammar (a key of None next to (time, name) tuples makes the sort raise).  (b) 'complete at the window start': when the
+    first selected sub-directory cannot be listed (it vanished), the iteration still reaches the look-back for the metadata
+    forward-fill file: no path from the OSError handler of that listing leaves the iteration (continue / back edge) without
+    being able to reach the look-back loop."""
+    r = Rule("C14.R11", "the sort key covers every listed name; a vanished first sub-directory does not skip the forward-fill look-back")
+    m = pyfront.mod("list_drf", repo)
+    f = m.fn("sortkey_drf")
+    fo = cfold.Folder(repo)
+    defaults = []
+    for iff in ast.walk(f):
+        if isinstance(iff, ast.If) and norm(ast.unparse(iff.test)) in ("regexes is None", "not regexes"):
+            for a in iff.body:
+                if isinstance(a, ast.Assign) and any(isinstance(t, ast.Name) and t.id == "regexes" for t in a.targets) and isinstance(a.value, (ast.List, ast.Tuple)):
+                    defaults = [e.id for e in a.value.elts if isinstance(e, ast.Name)]
+    if not defaults:
+        d = [dv for a_, dv in zip(f.args.args[-len(f.args.defaults):], f.args.defaults) if a_.arg == "regexes"] if f.args.defaults else []
+        if d and isinstance(d[0], (ast.List, ast.Tuple)):
+            defaults = [e.id for e in d[0].elts if isinstance(e, ast.Name)]
+    if not defaults:
+        raise AnalysisError("sortkey_drf: default list of regular expressions not found")
+    pats = {n: fo.name("list_drf", n) for n in set(defaults) | {"_RE_FILE", "_RE_PROPFILE"}}
+    sp = rx.Space(pats, texts=["rf@.h5tmp.drf_dmd_propertiesmetadata", "0123456789"])
+    union = None
+    for n in defaults:
+        union = sp[n] if union is None else (union | sp[n])
+    for need in ("_RE_FILE", "_RE_PROPFILE"):
+        ok, w = sp[need].subset_of(union)
+        if ok:
+            r.ok("%s:%s sortkey_drf %s" % (m.rel, f.lineno, need), "every name of L(%s) has a key with the default expressions %s" % (need, defaults))
+        else:
+            r.violation(m.rel, "sortkey_drf", "default regexes %s do not cover %s" % (defaults, need), "sortkey_drf returns None for a name "
+                        "the listing yields (witness %r): sorting None against the (time, name) tuples of the other files raises "
+                        "TypeError - `drf ls --sortall` fails whenever such a file is listed together with a data file" % w, line=f.lineno)
+    # (b)
+    _m2, lq, lview, lp = _lookback_loop(repo)
+    g = lview.cfg()
+    fn = lview.fn()
+    outer = lview.enclosing(lp, (ast.For,))
+    if outer is None:
+        raise AnalysisError("%s: the look-back loop is not inside the loop over the selected sub-directories" % lq)
+    tries = [t for t in ast.walk(outer) if isinstance(t, ast.Try) and not any(t is x for x in ast.walk(lp))
+             and any(isinstance(c, ast.Call) and pyfront.call_name(c) == "os.listdir" for st in t.body for c in ast.walk(st))
+             and t.lineno < lp.lineno]
+    if not tries:
+        raise AnalysisError("%s: the guarded listing of the selected sub-directory (before the look-back) was not found" % lq)
+    lp_nodes = [n.id for n in g.nodes if n.ast is lp]
+    if not lp_nodes:
+        raise AnalysisError("%s: look-back loop head not in the CFG" % lq)
+    for t in tries:
+        for h in t.handlers:
+            starts = [n.id for n in g.nodes if n.ast is not None and h.body and n.ast is h.body[0]]
+            if not starts:
+                starts = [n.id for n in g.nodes if n.ast is not None and any(n.ast is x for x in h.body)]
+            if not starts:
+                continue
+            reach = g.reach(starts, skip_labels=("back", "exc"))
+            site = "%s:%s %s except %s" % (m.rel, h.lineno, lq, norm(ast.unparse(h.type)) if h.type is not None else "")
+            if any(i in reach for i in lp_nodes) or any(i in starts for i in lp_nodes):
+                r.ok(site, "after a failed listing of the selected sub-directory the iteration goes on to the look-back")
+            else:
+                r.violation(m.rel, lq, "handler of `%s` leaves the iteration before the look-back" % norm(ast.unparse(t.body[0]))[:60],
+                            "when the first selected sub-directory has vanished (or cannot be listed) the iteration is abandoned, and "
+                            "with it the look-back into earlier sub-directories: the metadata file valid at the start time is missing "
+                            "from the listing although it is listed both when the sub-directory stays and when it was gone from the "
+                            "start", line=h.lineno)
+    r.guard(3)
+    return r
+
+
 def rules(repo=None):
-    return [lambda: r1_grammar(repo), lambda: r2_kind_tables(repo), lambda: r3_sorted_before_sliced(repo),
+    return [lambda: r11_sort_keys_and_vanished_first_subdir(repo), lambda: r1_grammar(repo), lambda: r2_kind_tables(repo), lambda: r3_sorted_before_sliced(repo),
             lambda: r4_robust_listing(repo), lambda: r5_lookback_complete(repo),
             lambda: r6_reverse_changes_only_the_order(repo), lambda: r7_window_end_inclusive(repo),
             lambda: r8_forward_fill_file_always_taken(repo), lambda: r9_grammar_names_that_are_not_times(repo),
